@@ -1,570 +1,604 @@
-"""C02 ground-state perturbation theory (structural clauses)."""
+"""C02 ground-state perturbation theory: derivation skeleton by abstract evaluation."""
 from __future__ import annotations
 
-import ast
+import math
+import re
 from fractions import Fraction
 
-from ..model import (AnalysisError, U, Defs, calls_in, call_name, walk_fn, kwarg, enclosing,
-                     enclosing_stmt, short)
-from ..pathcond import conditions
-from . import common, deriv
+from ..model import AnalysisError
+from ..symex import Obj
+from ..terms import (T, sym, kwcall, mcall, call, t_mul, t_add, t_neg, t_pow, t_div, expand_products, subterms, args_of,
+                     show, is_num)
+from . import dx
 
 EXPLANATION = (
-    "D1: every gen_term_orders split in groundstate.py is linear (each order component enters "
-    "exactly one order-parametrised factor per product; split order is the function's order or a "
-    "component of an enclosing split; min_order 0 except frozen reasons) and the implicit splits "
-    "operator-order + wavefunction-order = n hold in energy/mp_amplitude/amplitude_residual. "
-    "D2: in every product handed to wicks bra factors stand left of the operator and ket factors "
-    "right, deltas are evaluated and the block rules bound together with the operator are passed. "
-    "D3: restriction-lifting prefactors of GroundState.psi (1/(n!)^2 with n = slice bound of both "
-    "index groups) and Operators.operator (1/(n_c! n_a!) with the slice bounds of its index "
-    "groups); Hamiltonian formula table (mp_h0, mp_h1, re_h0, re_h1) incl. 1/4 for two index "
-    "pairs, sign of the one-particle part, operator order Fd Fd F(s) F(r); RE block rules of H0 "
-    "and H1 partition the canonical blocks. R02a: doubles sign convention agrees between psi, "
-    "mp_amplitude (denominator and energy term) and amplitude_residual. R02b: amplitude "
-    "existence guard agrees between the two amplitude builders and psi. R02c: Taylor "
-    "coefficients f^(k)(0)/k! of (1+x)^-1 and (1+x)^-1/2 built by sibling code; element-wise "
-    "consumption in norm_factor.")
+    "groundstate.py and operators.py are evaluated abstractly (sa.symex) for concrete orders, spaces and index strings; "
+    "wicks, the second-quantised operators Fd/F/NO/Dagger, tensors, orbital energies and recursive sub-derivations stay "
+    "uninterpreted, the index generator is modelled.  The evaluated sums of products are compared with the RSPT "
+    "formulas of the library's conventions on every path. R02d: mp_h0 = f_pq p+q; mp_h1 = -<po||qo> p+q + 1/4 <pq||rs> "
+    "p+q+sr; re_h0/re_h1 the full operator with block rules that partition the canonical Fock and ERI blocks; h0/h1 "
+    "dispatch on the variant. D3: Operators.operator = 1/(n_c! n_a!) d^{create}_{annihilate} a+..a (annihilators "
+    "reversed, first n_c generic indices create); excitation_operator order; psi^(n) = sum_exc (+/-)1/(exc!)^2 t^(n) "
+    "NO(a+ .. i ..) with exc = 1..2n (singles skipped at first order unless requested), doubles negative, bra: cc name "
+    "and adjoint operators. R02b: energy E^(n) = wicks(<0|H|psi^(k)>) with (H0,k=0) for n=0 and (H1,k=n-1) else; "
+    "overlap S^(n) = sum wicks(<psi^(i)|psi^(j)>); expectation_value = sum N^(a) sum wicks(<psi^(i)| d |psi^(j)>) with "
+    "the operator's rules. R02a: mp_amplitude = (wicks(<Phi|H1|psi^(n-1)>) +/- sum_{o1+o2=n; o1,o2>=1} E^(o1) t^(o2)) / "
+    "(+/-)(sum e_occ - sum e_virt) with the doubles sign convention and the amplitude-existence guard; "
+    "amplitude_residual = wicks(<Phi|H0|psi^(n)>) + wicks(<Phi|H1|psi^(n-1)>) +/- sum_{o1+o2=n} E^(o1) t^(o2); input "
+    "guards; dispatch of amplitude() on the variant. R02c: expand_norm_factor returns the Taylor terms of (1+x)^-1 and "
+    "norm_factor multiplies exactly those overlaps. D1/D2 are read off the same comparisons.")
 ASSUMPTIONS = [
-    "agreement of derived expressions with explicit RSPT is not decided",
-    "callees are resolved by method name inside the four derivation modules",
+    "agreement of the derived expressions with explicit RSPT is not decided; the formulas above are the library's own conventions",
+    "skeletons are evaluated for orders 0..4 and singles/doubles/triples spaces only (bounded)",
+    "wicks, Fd, F, NO, Dagger, AntiSymmetricTensor, Amplitude, orb_energy and simplify are uninterpreted; Indices is modelled",
 ]
 
-GS = "groundstate:GroundState."
+GS = dx.GS
+OP = dx.OP
 
 
-def r_implicit_split(ctx):
-    """operator order + ket wavefunction order == order"""
-    rule = "D1"
-    for meth in ("energy", "mp_amplitude", "amplitude_residual"):
-        fn = ctx.model.fn(GS + meth)
-        defs = Defs(fn)
-        cl = deriv.Classifier(fn)
-        n = 0
-        for c in calls_in(fn):
-            if call_name(c) != "wicks":
-                continue
-            for prod in deriv._products_for(c, fn):
-                fs = deriv.flatten_mult(prod)
-                kinds = [cl.classify(f) for f in fs]
-                if "op" not in kinds or "ket" not in kinds:
-                    continue
-                op = fs[kinds.index("op")]
-                ket = fs[kinds.index("ket")]
-                pst = enclosing_stmt(prod)
+# ------------------------------------------------------------------ model of the index source
 
-                def value_of(node):
-                    if isinstance(node, ast.Name):
-                        live = deriv.reaching_assignments(fn, node.id, pst)
-                        if len(live) != 1:
-                            raise AnalysisError(f"implicit split: `{node.id}` in {meth} has {len(live)} reaching definitions")
-                        a = live[0]
-                        if isinstance(a.targets[0], ast.Tuple):
-                            return a.value  # (h, rules) = X
-                        return a.value
-                    return node
+class Idx:
+    """Model of Indices.get_indices / get_generic_indices / get_symbols on plain names."""
 
-                def cases(opv, ketv):
-                    """yield (cond, op_order, ket_order_text)"""
-                    if isinstance(opv, ast.IfExp) or isinstance(ketv, ast.IfExp):
-                        t = opv.test if isinstance(opv, ast.IfExp) else ketv.test
-                        for pol in (True, False):
-                            o = (opv.body if pol else opv.orelse) if isinstance(opv, ast.IfExp) and U(opv.test) == U(t) else opv
-                            k = (ketv.body if pol else ketv.orelse) if isinstance(ketv, ast.IfExp) and U(ketv.test) == U(t) else ketv
-                            yield (U(t), pol), o, k
-                    else:
-                        yield None, opv, ketv
-                for cond, o, k in cases(value_of(op), value_of(ket)):
-                    ot = U(o)
-                    oo = 0 if ot.endswith(".h0") else 1 if ot.endswith(".h1") else None
-                    ko = kwarg(k, "order", 0) if isinstance(k, ast.Call) else None
-                    kt = U(ko).replace(" ", "") if ko is not None else "?"
-                    if cond == ("order == 0", True):
-                        total_ok = oo == 0 and kt in ("0", "order")
-                    else:
-                        total_ok = (oo == 0 and kt == "order") or (oo == 1 and kt == "order-1")
-                    n += 1
-                    ctx.check(rule, prod, total_ok,
-                              f"{meth}: H{oo} with psi({kt}) adds up to `order`" + (f" under {cond}" if cond else ""),
-                              f"{meth}: operator `{ot}` (order {oo}) is combined with the ket wavefunction of order "
-                              f"`{kt}`; the orders do not add up to `order`", key=f"{meth} implicit {ot} {kt}")
-                    # zeroth-order bra for energies / determinants
-                bra = fs[kinds.index("bra")] if "bra" in kinds else None
-                if meth == "energy" and bra is not None:
-                    bv = value_of(bra)
-                    ctx.check(rule, prod, isinstance(bv, ast.Call) and U(kwarg(bv, "order", 0)) == "0",
-                              "energy: zeroth-order bra", "energy: bra is not the zeroth-order wavefunction",
-                              key="energy bra")
-        ctx.floor(rule, f"implicit splits in {meth}", n, 1 if meth != "amplitude_residual" else 2)
+    def __init__(self):
+        self.n = 0
+
+    def reset(self, sx=None):
+        self.n = 0
+
+    @staticmethod
+    def obj(name, space):
+        o = Obj(None, name)
+        o.attrs.update(name=name, space=space, spin="")
+        return o
+
+    def hooks(self):
+        def get_indices(sx, a, kw):
+            s = a[1] if len(a) > 1 else kw.get("indices")
+            if isinstance(s, (list, tuple)):
+                s = "".join(x.attrs["name"] if isinstance(x, Obj) else str(x) for x in s)
+            if not isinstance(s, str):
+                return NotImplemented
+            out = {}
+            for name in re.findall(r"<[^>]*>|[a-z]\d*", s):
+                c = name[0]
+                if c == "<":
+                    sp = name[1:].split("#")[0]
+                else:
+                    sp = "occ" if "i" <= c <= "o" else "virt" if "a" <= c <= "h" else "general"
+                out.setdefault((sp, ""), []).append(self.obj(name, sp))
+            return out
+
+        def get_generic_indices(sx, a, kw):
+            out = {}
+            self.n += 1
+            for sp, cnt in kw.items():
+                if not isinstance(cnt, int):
+                    return NotImplemented
+                if cnt:
+                    out[(sp, "")] = [self.obj(f"<{sp}#{self.n}.{i}>", sp) for i in range(cnt)]
+            return out
+
+        def get_symbols(sx, a, kw):
+            x = a[0] if a else kw.get("indices")
+            if isinstance(x, str):
+                return get_indices(sx, [None, x], {}) and [o for v in get_indices(sx, [None, x], {}).values() for o in v]
+            return list(x)
+
+        def indices_cls(sx, a, kw):
+            return Obj("indices:Indices", "Indices()")
+
+        def mul(sx, a, kw):
+            return t_mul(*[x.term if isinstance(x, Obj) else x for x in a]) if a else 1
+        return {"Indices.get_indices": get_indices, "Indices.get_generic_indices": get_generic_indices,
+                "get_symbols": get_symbols, "Indices": indices_cls, "Mul": mul}
 
 
-# ---------------------------------------------------------------------- D3 psi / operator
+def _sx(ctx, what, scen, idx, **kw):
+    hk = idx.hooks()
+    hk.update(dx.taylor_hooks())
+    sx = dx.make_sx(ctx, what, scen, hooks=hk, max_paths=8192, **kw)
+
+    def start(s):
+        scen.reset(s)
+        idx.reset()
+    sx.on_start = start
+    return sx
 
 
-def d3_psi(ctx):
-    rule = "D3"
-    fn = ctx.model.fn(GS + "psi")
-    loops = [n for n in walk_fn(fn) if isinstance(n, ast.For)]
-    ctx.floor(rule, "excitation loop in psi", len(loops), 1)
-    lp = loops[0]
-    x = U(lp.target)
-    ctx.check(rule, lp, U(lp.iter).replace(" ", "") in ("range(1,order*2+1)", "range(1,2*order+1)"),
-              "excitation classes 1..2n", f"excitation classes iterate `{U(lp.iter)}`", key="psi range")
-    defs = Defs(fn)
-    amp = [c for c in calls_in(lp) if call_name(c) == "Amplitude"]
-    ctx.floor(rule, "Amplitude in psi", len(amp), 1)
-    a = amp[0]
-    groups = [defs.resolve(a.args[1]), defs.resolve(a.args[2])]
-    bounds = []
-    for g in groups:
-        if isinstance(g, ast.Subscript) and isinstance(g.slice, ast.Slice) and g.slice.lower is None and g.slice.upper is not None:
-            bounds.append(U(g.slice.upper))
+def _gs(scen):
+    return scen.objects()[1]
+
+
+def _names(t):
+    return T("attr", t, "x")
+
+
+def tn(attr):
+    """tensor_names.<attr> as the evaluator sees it."""
+    return attr
+
+
+def _is_tn(t, attr):
+    return isinstance(t, T) and t.op == "attr" and t.args[1] == attr
+
+
+# ------------------------------------------------------------------ operators.py
+
+def _ast(name_attr, upper, lower, v):
+    """AntiSymmetricTensor term with the configured name attribute checked separately."""
+    return v
+
+
+def _tensor_ok(t, name_attr, upper, lower):
+    if not (isinstance(t, T) and t.op == "call" and t.args[0] == "AntiSymmetricTensor"):
+        return False
+    a = list(args_of(t).values())
+    return _is_tn(a[0], name_attr) and tuple(a[1]) == tuple(upper) and tuple(a[2]) == tuple(lower)
+
+
+def _fd(x):
+    return call("Fd", x)
+
+
+def _f(x):
+    return call("F", x)
+
+
+def _classify_h(prods):
+    """[(coefficient, tensor term, operator string)] of a Hamiltonian expression."""
+    out = []
+    for c, fs in prods:
+        tens = [f for f in fs if isinstance(f, T) and f.op == "call" and f.args[0] == "AntiSymmetricTensor"]
+        ops = [f for f in fs if isinstance(f, T) and f.op == "call" and f.args[0] in ("Fd", "F")]
+        rest = [f for f in fs if f not in tens and f not in ops]
+        out.append((Fraction(c), tens, ops, rest))
+    return out
+
+
+def r02d(ctx):
+    rule = "R02d"
+    p, q, r, s = (sym(x) for x in "pqrs")
+    full_eri = {"oooo", "ooov", "oovv", "ovov", "ovvv", "vvvv"}
+    results = {}
+    for meth in ("mp_h0", "mp_h1", "re_h0", "re_h1"):
+        fn = ctx.model.fn(f"{OP}.{meth}")
+        scen, idx = dx.Scenario(), Idx()
+        sx = _sx(ctx, meth, scen, idx)
+        outs = sx.run(fn, lambda: dict())
+        if len(outs) != 1 or outs[0].kind != "return" or not isinstance(dx.val(outs[0]), tuple) or len(dx.val(outs[0])) != 2:
+            ctx.bad(rule, fn, f"{meth} does not return one (operator, rules) pair: {outs}", key=f"{meth} shape")
+            continue
+        op, rules = dx.val(outs[0])
+        parts = _classify_h(expand_products(op))
+        o = sym("<occ#1.0>")
+        want = []
+        if meth in ("mp_h0", "re_h0", "re_h1"):
+            want.append((Fraction(1), ("fock", (p,), (q,)), [_fd(p), _f(q)]))
+        if meth in ("mp_h1", "re_h0", "re_h1"):
+            want.append((Fraction(-1), ("eri", (p, o), (q, o)), [_fd(p), _f(q)]))
+            want.append((Fraction(1, 4), ("eri", (p, q), (r, s)), [_fd(p), _fd(q), _f(s), _f(r)]))
+        ok = len(parts) == len(want)
+        detail = ""
+        if ok:
+            for (c, (na, up, lo), ops) in want:
+                m = [x for x in parts if len(x[1]) == 1 and _tensor_ok(x[1][0], na, up, lo) and not x[3]]
+                if len(m) != 1:
+                    ok, detail = False, f"no term with the tensor {na}^{show(up)}_{show(lo)}"
+                    break
+                if m[0][0] != c:
+                    ok, detail = False, f"the {na}^{show(up)}_{show(lo)} term has the prefactor {m[0][0]}, expected {c}"
+                    break
+                if m[0][2] != ops:
+                    ok, detail = False, f"the {na}^{show(up)}_{show(lo)} term carries the operator string {show(m[0][2])}, expected {show(ops)}"
+                    break
         else:
-            bounds.append("?")
-    ctx.check(rule, a, bounds == [x, x], f"both index groups have `{x}` entries",
-              f"index groups of the amplitude are sliced with {bounds}, not with the excitation rank `{x}`",
-              key="psi slices")
-    up, lo = U(groups[0]), U(groups[1])
-    ctx.check(rule, a, "'virt'" in up and "'occ'" in lo, "amplitude: virtual upper, occupied lower",
-              f"amplitude index groups are upper={up}, lower={lo}", key="psi upper lower")
-    pref = [n for n, kind, args in deriv._lifting_prefactors(fn, defs)]
-    prs = [c for c in calls_in(lp) if call_name(c) == "Rational"]
-    ok = len(prs) == 1 and U(prs[0]).replace(" ", "") in (f"Rational(1,factorial({x})**2)",
-                                                           f"Rational(1,factorial({x})*factorial({x}))")
-    ctx.check(rule, prs[0] if prs else lp, ok, f"lifting prefactor 1/({x}!)^2",
-              f"lifting prefactor is `{U(prs[0]) if prs else None}`, expected 1/({x}!)^2 for the two groups of `{x}` "
-              "summed indices", key="psi prefactor")
-    ops = [c for c in calls_in(lp) if call_name(c) == "excitation_operator"]
-    ctx.floor(rule, "excitation operator in psi", len(ops), 1)
-    o = ops[0]
-    cr, an = defs.resolve(kwarg(o, "creation", 0)), defs.resolve(kwarg(o, "annihilation", 1))
-    ctx.check(rule, o, U(cr) == up and U(an) == lo and U(kwarg(o, "reverse_annihilation", 2)) == "True",
-              "operators carry the amplitude's indices (a+ b+ j i)",
-              "creation/annihilation operators of the wavefunction do not carry the indices of the amplitude",
-              key="psi operators")
-    dag = [c for c in calls_in(lp) if call_name(c) == "Dagger"]
-    ctx.check(rule, lp, len(dag) == 1 and ("braket == 'bra'", True) in conditions(dag[0]),
-              "bra: adjoint operator string", "bra wavefunction does not take the adjoint operator string", key="psi dagger")
-    ccs = [n for n in walk_fn(fn) if isinstance(n, ast.AugAssign) and U(n.target) == "tensor_name"]
-    ctx.check(rule, fn, len(ccs) == 1 and U(ccs[0].value) == "'cc'" and ("braket == 'bra'", True) in conditions(ccs[0]),
-              "bra amplitudes are complex conjugates", "bra amplitude name is not marked 'cc' exactly for the bra",
-              key="psi cc")
-    # generic indices: 2*order per space
-    gi = [c for c in calls_in(fn) if call_name(c) == "get_generic_indices"]
-    ok = len(gi) == 1 and {k.arg: U(k.value).replace(" ", "") for k in gi[0].keywords} in (
-        {"occ": "2*order", "virt": "2*order"}, {"occ": "order*2", "virt": "order*2"})
-    ctx.check(rule, fn, ok, "fresh generic indices for every call", "psi does not request 2*order fresh occ and virt indices",
-              key="psi generic")
-    z = [r for r in common.returns_of(fn) if ("order == 0", True) in conditions(r)]
-    ctx.check(rule, fn, len(z) == 1 and U(z[0].value) == "sympify(1)", "zeroth order: 1", "zeroth-order wavefunction is not 1",
-              key="psi zeroth")
+            detail = f"{len(parts)} terms, expected {len(want)}"
+        ctx.check(rule, fn, ok, f"{meth}: " + " + ".join(f"{c} {na}" for c, (na, _, _), _ in want),
+                  f"{meth}: {detail}: {show(op)[:300]}", key=f"{meth} formula")
+        if meth.startswith("mp"):
+            ctx.check(rule, fn, rules is None, f"{meth}: no block rules", f"{meth} returns rules {show(rules)}", key=f"{meth} rules")
+        else:
+            fb = None
+            if isinstance(rules, T) and rules.op == "call" and rules.args[0] == "Rules":
+                d = args_of(rules).get("forbidden_tensor_blocks")
+                if isinstance(d, T) and d.op == "dict":
+                    fb = {}
+                    for k, v in d.args:
+                        na = k.args[1] if isinstance(k, T) and k.op == "attr" else str(k)
+                        fb[na] = set(v)
+            results[meth] = fb
+            ctx.check(rule, fn, fb is not None and set(fb) == {"fock", "eri"}, f"{meth}: block rules for the Fock matrix and the ERI",
+                      f"{meth}: rules are {show(rules)[:200]}", key=f"{meth} rules")
+    h0, h1 = results.get("re_h0"), results.get("re_h1")
+    fn = ctx.model.fn(f"{OP}.re_h0")
+    if h0 and h1 and set(h0) == {"fock", "eri"} == set(h1):
+        canon_eri = lambda b: min(x for x in (b, b[2:] + b[:2], b[1] + b[0] + b[2:], b[:2] + b[3] + b[2], b[1] + b[0] + b[3] + b[2],
+                                              b[2:] + b[1] + b[0], b[3] + b[2] + b[:2], b[3] + b[2] + b[1] + b[0]))
+        for na, blocks, norm in (("fock", {"oo", "ov", "vo", "vv"}, lambda b: b),
+                                 ("eri", full_eri, canon_eri)):
+            for b in sorted(blocks):
+                in0 = any(norm(x) == norm(b) for x in h0[na]) is False
+                in1 = any(norm(x) == norm(b) for x in h1[na]) is False
+                ctx.check(rule, fn, in0 != in1, f"RE: {na} block {b} belongs to exactly one of H0/H1",
+                          f"RE partitioning: the {na} block {b} is kept by {'both' if in0 and in1 else 'neither'} of H0 and H1 "
+                          f"(forbidden in H0: {sorted(h0[na])}, in H1: {sorted(h1[na])})", key=f"re partition {na} {b}")
+            # every spelling of a forbidden canonical block that the tensors can take must be listed
+            if na == "eri":
+                for which, fbd in (("H0", h0[na]), ("H1", h1[na])):
+                    for b in sorted({norm(x) for x in fbd}):
+                        # a tensor that is not bra-ket symmetric (complex orbitals) keeps <bra||ket> and <ket||bra> apart:
+                        # both spellings (each pair sorted) of a forbidden block have to be listed
+                        for sp in sorted({b, b[2:] + b[:2]}):
+                            ctx.check(rule, fn, sp in fbd, f"RE {which}: spelling {sp} of the block {b} listed",
+                                      f"RE {which}: the block {b} is forbidden, but its spelling {sp} (bra and ket exchanged) is not listed "
+                                      f"({sorted(fbd)}): without bra-ket symmetry that block survives", key=f"re spelling {which} {sp}")
+        ctx.check(rule, fn, h0["fock"] == {"ov", "vo"} and {canon_eri(x) for x in h1["eri"]} == {"oooo", "ovov", "vvvv"},
+                  "RE: H0 keeps the diagonal blocks (oo, vv; oooo, ovov, vvvv)",
+                  f"RE: H0 forbids fock {sorted(h0['fock'])}, H1 forbids eri {sorted(h1['eri'])}", key="re diagonal")
+    # dispatch of h0 / h1 on the variant
+    for prop, table in (("h0", {"mp": "mp_h0", "re": "re_h0"}), ("h1", {"mp": "mp_h1", "re": "re_h1"})):
+        fn = ctx.model.fn(f"{OP}.{prop}")
+        for variant in ("mp", "re", "xx"):
+            scen, idx = dx.Scenario(), Idx()
+            sx = dx.make_sx(ctx, prop, scen)
+            sx.inline = lambda q_: False
+            outs = sx.run(fn, lambda: dict(self=Obj(OP, "h", _variant=variant)))
+            if variant in table:
+                v = dx.val(outs[0]) if len(outs) == 1 and outs[0].kind == "return" else None
+                ok = isinstance(v, T) and v.op in ("mcall", "call") and (v.args[1] if v.op == "mcall" else v.args[0]).split(".")[-1] == table[variant]
+                ctx.check(rule, fn, ok, f"{prop} of the {variant} partitioning is {table[variant]}()",
+                          f"Operators.{prop} for variant '{variant}' evaluates to {show(v)[:120]}", key=f"dispatch {prop} {variant}")
+            else:
+                dx.all_raise(ctx, rule, fn, f"{prop} for an unknown partitioning", outs, key=f"dispatch {prop} unknown")
 
 
 def d3_operator(ctx):
     rule = "D3"
-    fn = ctx.model.fn("operators:Operators.operator")
-    defs = Defs(fn)
-    pr = [c for c in calls_in(fn) if call_name(c) == "Rational"]
-    ok = len(pr) == 1 and U(pr[0]).replace(" ", "") in (
-        "Rational(1,factorial(n_create)*factorial(n_annihilate))", "Rational(1,factorial(n_annihilate)*factorial(n_create))")
-    ctx.check(rule, pr[0] if pr else fn, ok, "operator prefactor 1/(n_c! n_a!)",
-              f"operator prefactor `{U(pr[0]) if pr else None}` is not 1/(n_create! n_annihilate!)", key="operator prefactor")
-    t = [c for c in calls_in(fn) if call_name(c) == "AntiSymmetricTensor"]
-    ctx.floor(rule, "tensor in Operators.operator", len(t), 1)
-    up, lo = defs.resolve(t[0].args[1]), defs.resolve(t[0].args[2])
-
-    def sl(n):
-        if isinstance(n, ast.Subscript) and isinstance(n.slice, ast.Slice):
-            return (U(n.slice.lower) if n.slice.lower else None, U(n.slice.upper) if n.slice.upper else None)
-        return ("?", "?")
-    ctx.check(rule, t[0], sl(up) == (None, "n_create") and sl(lo) == ("n_create", None),
-              "index groups partition the generic indices at n_create",
-              f"operator index groups are sliced {sl(up)} / {sl(lo)}", key="operator slices")
-    gi = [c for c in calls_in(fn) if call_name(c) == "get_generic_indices"]
-    ok = len(gi) == 1 and {k.arg: U(k.value).replace(" ", "") for k in gi[0].keywords} in (
-        {"general": "n_create+n_annihilate"}, {"general": "n_annihilate+n_create"})
-    ctx.check(rule, fn, ok, "n_c + n_a fresh general indices", "operator does not request n_create+n_annihilate general indices",
-              key="operator generic")
-    o = [c for c in calls_in(fn) if call_name(c) == "excitation_operator"]
-    ok = len(o) == 1 and U(defs.resolve(kwarg(o[0], "creation", 0))) == U(up) \
-        and U(defs.resolve(kwarg(o[0], "annihilation", 1))) == U(lo) and U(kwarg(o[0], "reverse_annihilation", 2)) == "True"
-    ctx.check(rule, fn, ok, "operator string carries the tensor's indices, annihilators reversed",
-              "operator string does not carry the indices of the operator matrix (creators upper, annihilators lower "
-              "reversed)", key="operator string")
-    ret = common.returns_of(fn)
-    ok = len(ret) == 1 and isinstance(ret[0].value, ast.Tuple) and sorted(U(f) for f in deriv.flatten_mult(ret[0].value.elts[0])) \
-        == ["d", "op", "pref"] and U(ret[0].value.elts[1]) == "None"
-    ctx.check(rule, fn, ok, "pref * d * op", f"operator returns `{U(ret[0].value) if ret else None}`", key="operator product")
-    # excitation_operator itself
-    eo = ctx.model.fn("operators:Operators.excitation_operator")
-    muls = [c for c in calls_in(eo) if call_name(c) == "Mul"]
-    kinds = []
-    for m in muls:
-        g = m.args[0].value if m.args and isinstance(m.args[0], ast.Starred) else None
-        if isinstance(g, (ast.ListComp, ast.GeneratorExp)):
-            kinds.append((call_name(g.elt), U(g.generators[0].iter)))
-    ctx.check(rule, eo, kinds == [("Fd", "get_symbols(creation)"), ("F", "get_symbols(annihilation)")],
-              "creators (Fd) left of annihilators (F)", f"excitation_operator builds {kinds}", key="excitation order")
-    rev = [n for n in walk_fn(eo) if isinstance(n, ast.Assign) and U(n.targets[0]) == "annihilation"]
-    ok = len(rev) == 1 and ("reverse_annihilation", True) in conditions(rev[0]) and \
-        U(rev[0].value).replace(" ", "") in ("[annihilation[i]foriinrange(len(annihilation)-1,-1,-1)]",
-                                             "annihilation[::-1]", "list(reversed(annihilation))")
-    ctx.check(rule, eo, ok, "annihilators reversed on request", "reversal of the annihilation operators changed",
-              key="excitation reverse")
-
-
-# ---------------------------------------------------------------------- Hamiltonian formulas
+    fn = ctx.model.fn(f"{OP}.operator")
+    for nc, na in ((1, 1), (2, 2), (1, 0), (0, 1), (2, 1), (1, 2), (3, 3)):
+        scen, idx = dx.Scenario(), Idx()
+        sx = _sx(ctx, "operator", scen, idx)
+        outs = sx.run(fn, lambda: dict(self=Obj(OP, "h", _variant="mp", _indices=Obj("indices:Indices", "h._indices")),
+                                       n_create=nc, n_annihilate=na))
+        what = f"operator({nc}, {na})"
+        if len(outs) != 1 or outs[0].kind != "return" or not isinstance(dx.val(outs[0]), tuple):
+            ctx.bad(rule, fn, f"{what}: {outs}", key=f"operator shape {nc} {na}")
+            continue
+        op, rules = dx.val(outs[0])
+        g = [sym(f"<general#1.{i}>") for i in range(nc + na)]
+        create, ann = g[:nc], g[nc:]
+        prods = expand_products(op)
+        ok = len(prods) == 1
+        detail = f"{len(prods)} products"
+        if ok:
+            c, fs = prods[0]
+            tens = [f for f in fs if isinstance(f, T) and f.op == "call" and f.args[0] == "AntiSymmetricTensor"]
+            exc = [f for f in fs if isinstance(f, T) and f.op == "mcall" and f.args[1] == "excitation_operator"]
+            want_c = Fraction(1, math.factorial(nc) * math.factorial(na))
+            if Fraction(c) != want_c:
+                ok, detail = False, f"prefactor {c}, expected 1/({nc}! {na}!) = {want_c}"
+            elif len(tens) != 1 or not _tensor_ok(tens[0], "operator", create, ann):
+                ok, detail = False, f"tensor {show(tens)}, expected d^{show(create)}_{show(ann)}"
+            elif len(exc) != 1 or tuple(args_of(exc[0]).get("creation")) != tuple(create) or \
+                    tuple(args_of(exc[0]).get("annihilation")) != tuple(ann) or args_of(exc[0]).get("reverse_annihilation") is not True:
+                ok, detail = False, f"operator string {show(exc)}, expected creation={show(create)}, annihilation={show(ann)} reversed"
+            elif len(fs) != 2:
+                ok, detail = False, f"unexpected factors {show(fs)}"
+        ctx.check(rule, fn, ok, f"{what} = 1/({nc}! {na}!) d a+..a with the first {nc} generic indices creating",
+                  f"{what}: {detail}: {show(op)[:300]}", key=f"operator formula {nc} {na}")
+        ctx.check(rule, fn, rules is None, f"{what}: no block rules", f"{what}: rules {show(rules)}", key=f"operator rules {nc} {na}")
+    fn = ctx.model.fn(f"{OP}.excitation_operator")
+    a, b, i, j = (sym(x) for x in "abij")
+    for cr, an, rev, want in (((a, b), (i, j), True, [_fd(a), _fd(b), _f(j), _f(i)]), ((a, b), (i, j), False, [_fd(a), _fd(b), _f(i), _f(j)]),
+                              ((a,), None, True, [_fd(a)]), (None, (i, j), True, [_f(j), _f(i)]), (None, None, True, []),
+                              ((a,), (i, j), True, [_fd(a), _f(j), _f(i)])):
+        scen, idx = dx.Scenario(), Idx()
+        sx = _sx(ctx, "excitation_operator", scen, idx)
+        outs = sx.run(fn, lambda: dict(self=Obj(OP, "h"), creation=list(cr) if cr else None, annihilation=list(an) if an else None,
+                                       reverse_annihilation=rev))
+        v = dx.val(outs[0]) if len(outs) == 1 and outs[0].kind == "return" else None
+        prods = expand_products(v) if v is not None else None
+        ok = prods is not None and len(prods) == 1 and prods[0][0] == 1 and prods[0][1] == want
+        if want == []:
+            ok = v == 1
+        ctx.check(rule, fn, ok, f"excitation_operator({show(cr)}, {show(an)}, reverse={rev}) = {show(want)}",
+                  f"excitation_operator(creation={show(cr)}, annihilation={show(an)}, reverse_annihilation={rev}) builds {show(v)[:200]}, "
+                  f"expected {show(want)}", key=f"excitation operator {show(cr)} {show(an)} {rev}")
 
 
-def _term_list(fn, expr, defs):
-    """flatten +/- sum of products into [(coeff Fraction, [factor texts])]"""
-    out = []
+# ------------------------------------------------------------------ groundstate.py
 
-    def walk(n, sign):
-        if isinstance(n, ast.BinOp) and isinstance(n.op, ast.Add):
-            walk(n.left, sign)
-            walk(n.right, sign)
-        elif isinstance(n, ast.BinOp) and isinstance(n.op, ast.Sub):
-            walk(n.left, sign)
-            walk(n.right, -sign)
-        elif isinstance(n, ast.UnaryOp) and isinstance(n.op, ast.USub):
-            walk(n.operand, -sign)
-        else:
-            coeff = Fraction(sign)
-            facs = []
-            for f in deriv.flatten_mult(n):
-                if isinstance(f, ast.UnaryOp) and isinstance(f.op, ast.USub):
-                    coeff = -coeff
-                    f = f.operand
-                r = defs.resolve(f)
-                if isinstance(r, ast.Call) and call_name(r) == "Rational":
-                    coeff *= Fraction(int(U(r.args[0])), int(U(r.args[1])))
-                elif isinstance(r, ast.Constant) and isinstance(r.value, int):
-                    coeff *= r.value
-                else:
-                    for g in deriv.flatten_mult(r):
-                        facs.append(U(g))
-            out.append((coeff, facs))
-    walk(expr, 1)
-    return out
+def _psi(o, bk):
+    return mcall(sym("gs"), "psi", order=o, braket=bk)
 
 
-class _IdxDefs(Defs):
-    """index variables are atoms: the k-th index unpacked from get_indices(..)
-    is named p,q,r,s by position, the generic occupied one `occ`"""
-
-    def single(self, name, loops=False):
-        v = super().single(name, loops)
-        if v is None:
-            return None
-        t = U(v)
-        if "get_generic_indices(" in t:
-            return ast.Name("occ", ast.Load())
-        if "get_indices(" in t and isinstance(v, ast.Subscript) and isinstance(v.slice, ast.Constant):
-            return ast.Name("pqrs"[v.slice.value], ast.Load())
-        return v
+def _E(o):
+    return mcall(sym("gs"), "energy", order=o)
 
 
-def r_hamiltonians(ctx):
-    rule = "R02d"
-    F1 = ["AntiSymmetricTensor(tensor_names.fock, (p,), (q,))", "Fd(p)", "F(q)"]
-    V1 = ["AntiSymmetricTensor(tensor_names.eri, (p, occ), (q, occ))", "Fd(p)", "F(q)"]
-    V2 = ["AntiSymmetricTensor(tensor_names.eri, (p, q), (r, s))", "Fd(p)", "Fd(q)", "F(s)", "F(r)"]
-    full = sorted([(Fraction(1), F1), (Fraction(-1), V1), (Fraction(1, 4), V2)], key=str)
-    want = {"mp_h0": [(Fraction(1), F1)],
-            "mp_h1": sorted([(Fraction(-1), V1), (Fraction(1, 4), V2)], key=str),
-            "re_h0": full, "re_h1": full}
-    for name, w in want.items():
-        fn = ctx.model.fn(f"operators:Operators.{name}")
-        defs = Defs(fn)
-        ret = common.returns_of(fn)
-        if len(ret) != 1 or not isinstance(ret[0].value, ast.Tuple):
-            raise AnalysisError(f"{name}: return shape changed")
-        hexpr = defs.resolve(ret[0].value.elts[0], depth=1)
-        got = sorted(_term_list(fn, hexpr, _IdxDefs(fn)), key=str)
-        ctx.check(rule, fn, got == sorted(w, key=str), f"{name}: {len(w)} term(s) as in the second-quantised Hamiltonian",
-                  f"{name}: Hamiltonian terms are {[(str(c), f) for c, f in got]}; expected "
-                  f"{[(str(c), f) for c, f in w]}", key=f"{name} formula")
-        # general indices p q r s, fresh occupied index for the one-particle part
-        gi = [c for c in calls_in(fn) if call_name(c) == "get_indices"]
-        ok = len(gi) == 1 and U(gi[0].args[0]).strip("'\"") in ("pq", "pqrs")
-        ctx.check(rule, fn, ok, f"{name}: general summation indices", f"{name}: operator indices are not p,q(,r,s)",
-                  key=f"{name} indices")
-        if name != "mp_h0":
-            occ = [c for c in calls_in(fn) if call_name(c) == "get_generic_indices"]
-            ok = len(occ) == 1 and [(k.arg, U(k.value)) for k in occ[0].keywords] == [("occ", "1")]
-            ctx.check(rule, fn, ok, f"{name}: fresh occupied index in -<pi||qi>", f"{name}: no fresh occupied index",
-                      key=f"{name} occ index")
-        rules = ret[0].value.elts[1]
-        if name.startswith("mp"):
-            ctx.check(rule, fn, U(rules) == "None", f"{name}: no block rules", f"{name}: unexpected rules", key=f"{name} rules")
-    # RE rules: H0 and H1 partition the canonical blocks
-    blocks = {}
-    for name in ("re_h0", "re_h1"):
-        fn = ctx.model.fn(f"operators:Operators.{name}")
-        rc = [c for c in calls_in(fn) if call_name(c) == "Rules"]
-        if len(rc) != 1:
-            raise AnalysisError(f"{name}: Rules(...) construction not found")
-        d = kwarg(rc[0], "forbidden_tensor_blocks", 0)
-        if not isinstance(d, ast.Dict):
-            raise AnalysisError(f"{name}: forbidden blocks are not a dict display")
-        blocks[name] = {U(k): sorted(ast.literal_eval(v)) for k, v in zip(d.keys, d.values)}
-        ret = common.returns_of(fn)[0]
-        ctx.check(rule, fn, U(Defs(fn).resolve(ret.value.elts[1])) == U(rc[0]), f"{name}: rules returned",
-                  f"{name}: the rules object is not returned with the operator", key=f"{name} rules returned")
-    all_f = {"oo", "ov", "vo", "vv"}
-    can = {a + b for a in ("oo", "ov", "vv") for b in ("oo", "ov", "vv")}
-    for key, universe in (("tensor_names.fock", all_f), ("tensor_names.eri", can)):
-        a = set(blocks["re_h0"].get(key, []))
-        b = set(blocks["re_h1"].get(key, []))
-        fn = ctx.model.fn("operators:Operators.re_h0")
-        ctx.check(rule, fn, a | b == universe and not (a & b),
-                  f"{key}: every canonical block belongs to exactly one of H0/H1",
-                  f"{key}: forbidden blocks of H0 {sorted(a)} and H1 {sorted(b)} do not partition {sorted(universe)} "
-                  f"(in both: {sorted(universe - (a | b))}, in neither: {sorted(a & b)})", key=f"re partition {key}")
-    ctx.check(rule, ctx.model.fn("operators:Operators.re_h0"),
-              set(blocks["re_h0"].get("tensor_names.fock", [])) == {"ov", "vo"}
-              and set(blocks["re_h0"].get("tensor_names.eri", [])) == {"ooov", "oovv", "ovvv", "ovoo", "vvoo", "vvov"},
-              "RE H0 keeps the excitation-class-conserving blocks", "RE H0 block rules changed", key="re h0 blocks")
-    # dispatch
-    for prop, table in (("h0", {"'mp'": "self.mp_h0()", "'re'": "self.re_h0()"}),
-                        ("h1", {"'mp'": "self.mp_h1()", "'re'": "self.re_h1()"})):
-        fn = ctx.model.fn(f"operators:Operators.{prop}")
-        got = {}
-        for r in common.returns_of(fn):
-            for t, pol in conditions(r):
-                if pol and t.startswith("self._variant == "):
-                    got[t.split("== ")[1]] = U(r.value)
-        ctx.check(rule, fn, got == table, f"{prop}: variant dispatch", f"{prop}: variant dispatch is {got}", key=f"{prop} dispatch")
+def _wicks(expr, rules):
+    return kwcall("wicks", expr=expr, rules=rules, simplify_kronecker_deltas=True)
 
 
-# ---------------------------------------------------------------------- R02a/b
+def _hpart(k):
+    return T("attr", sym("h"), k)
 
 
-def _sign_split(ctx, fn, test_texts, acc, what, meth):
-    """`if <rank 2>: acc += X else: acc -= X`"""
-    augs = [n for n in walk_fn(fn) if isinstance(n, ast.AugAssign) and U(n.target) == acc
-            and isinstance(n.op, (ast.Add, ast.Sub))]
-    seen = {}
-    for a in augs:
-        cs = conditions(a)
-        for t in test_texts:
-            if (t, True) in cs:
-                seen[("rank2", type(a.op).__name__)] = a
-            elif (t, False) in cs:
-                seen[("other", type(a.op).__name__)] = a
-    return seen
-
-
-def r02a(ctx):
-    rule = "R02a"
-    psi = ctx.model.fn(GS + "psi")
-    s = _sign_split(ctx, psi, ["excitation == 2"], "psi", "wavefunction", "psi")
-    ctx.check(rule, psi, set(s) == {("rank2", "Sub"), ("other", "Add")},
-              "psi: doubles subtracted, every other class added",
-              f"psi: sign convention is {sorted(s)}; doubles must be subtracted and all other classes added",
-              key="psi signs")
-    if ("rank2", "Sub") in s and ("other", "Add") in s:
-        ctx.check(rule, psi, U(s[("rank2", "Sub")].value) == U(s[("other", "Add")].value),
-                  "same term in both branches", "the two sign branches add different terms", key="psi same term")
-    for meth, acc in (("mp_amplitude", "ret"), ("amplitude_residual", "res")):
-        fn = ctx.model.fn(GS + meth)
-        s = _sign_split(ctx, fn, ["n_ov['occ'] == 2"], acc, "energy term", meth)
-        s = {k: v for k, v in s.items() if "contrib" in U(v.value)}
-        ctx.check(rule, fn, set(s) == {("rank2", "Add"), ("other", "Sub")},
-                  f"{meth}: E*t added for doubles, subtracted otherwise",
-                  f"{meth}: sign of the energy-times-amplitude term is {sorted(s)}; it must be + for doubles and - "
-                  "otherwise (doubles are subtracted in psi)", key=f"{meth} energy sign")
-        # amplitude in the energy term: upper virtual, lower occupied, name from the configured prefix
-        amps = [c for c in calls_in(fn) if call_name(c) == "Amplitude"]
-        defs = Defs(fn)
-        for a in amps:
-            up, lo = U(defs.resolve(a.args[1])), U(defs.resolve(a.args[2]))
-            ctx.check(rule, a, "'virt'" in up and "'occ'" in lo, f"{meth}: amplitude virtual upper / occupied lower",
-                      f"{meth}: amplitude built with upper={up}, lower={lo}", key=f"{meth} amplitude groups")
-        bra = [c for c in calls_in(fn) if call_name(c) == "excitation_operator"]
-        for b in bra:
-            cr, an = U(defs.resolve(kwarg(b, "creation", 0))), U(defs.resolve(kwarg(b, "annihilation", 1)))
-            ctx.check(rule, b, "'occ'" in cr and "'virt'" in an and U(kwarg(b, "reverse_annihilation", 2)) == "True",
-                      f"{meth}: projection on <Phi_k| = i+ j+ b a", f"{meth}: bra determinant built from creation={cr}, "
-                      f"annihilation={an}", key=f"{meth} bra determinant")
-    # denominators of mp_amplitude
-    fn = ctx.model.fn(GS + "mp_amplitude")
-    facs = {}
-    for n in walk_fn(fn):
-        if isinstance(n, ast.Assign) and U(n.targets[0]) in ("occ_factor", "virt_factor"):
-            cs = conditions(n)
-            which = "rank2" if ("len(lower) == 2", True) in cs else "other" if ("len(lower) == 2", False) in cs else "?"
-            facs[(U(n.targets[0]), which)] = U(n.value).replace("+", "")
-    want = {("occ_factor", "rank2"): "-1", ("virt_factor", "rank2"): "1", ("occ_factor", "other"): "1",
-            ("virt_factor", "other"): "-1"}
-    ctx.check(rule, fn, facs == want, "denominator e_v - e_o for doubles, e_o - e_v otherwise",
-              f"denominator factors are {facs}; expected {want}", key="denominator factors")
-    loops = [n for n in walk_fn(fn) if isinstance(n, ast.For) and isinstance(n.body[0], ast.AugAssign)
-             and U(n.body[0].target) == "denom"]
-    got = {U(l.iter): U(l.body[0].value) for l in loops if isinstance(l.body[0].op, ast.Add)}
-    v = U(loops[0].target) if loops else "s"
-    ctx.check(rule, fn, got == {"lower": f"occ_factor * orb_energy({v})", "upper": f"virt_factor * orb_energy({v})"},
-              "denominator sums occupied (lower) and virtual (upper) orbital energies",
-              f"denominator loops are {got}", key="denominator loops")
-    lo = [a for a in common.assigns_to(fn, "lower")]
-    up = [a for a in common.assigns_to(fn, "upper")]
-    ctx.check(rule, fn, len(lo) == 1 and "'occ'" in U(lo[0].value) and len(up) == 1 and "'virt'" in U(up[0].value),
-              "lower = occupied, upper = virtual targets", "lower/upper target groups changed", key="lower upper")
-    ret = common.returns_of(fn)[-1]
-    ctx.check(rule, ret, U(ret.value) == "ret / denom", "result divided by the denominator once",
-              f"mp_amplitude returns `{U(ret.value)}`", key="division")
-    z = [a for a in common.assigns_to(fn, "denom") if isinstance(a, ast.Assign)]
-    ctx.check(rule, fn, len(z) == 1 and U(z[0].value) == "0", "denominator starts at 0", "denominator not initialised with 0",
-              key="denom init")
+def d3_psi(ctx):
+    rule = "D3"
+    fn = ctx.model.fn(f"{GS}.psi")
+    for singles in (False, True):
+        for order in (0, 1, 2, 3):
+            for bk in ("ket", "bra"):
+                scen, idx = dx.Scenario(singles=singles), Idx()
+                sx = _sx(ctx, "psi", scen, idx)
+                outs = sx.run(fn, lambda: dict(self=_gs(scen), order=order, braket=bk))
+                what = f"psi({order}, {bk}{', singles' if singles else ''})"
+                if len(outs) != 1 or outs[0].kind != "return":
+                    ctx.bad(rule, fn, f"{what}: {outs}", key=f"psi shape {order} {bk} {singles}")
+                    continue
+                v = dx.val(outs[0])
+                if order == 0:
+                    ctx.check(rule, fn, dx.skeleton(v) == [(1, [])], f"{what} = 1", f"{what} = {show(v)[:100]}", key=f"psi {order} {bk} {singles}")
+                    continue
+                occ = [sym(f"<occ#1.{i}>") for i in range(2 * order)]
+                virt = [sym(f"<virt#1.{i}>") for i in range(2 * order)]
+                prods = dx.skeleton(v)
+                excs = [e for e in range(1, 2 * order + 1) if not (order == 1 and e == 1 and not singles)]
+                ok = len(prods) == len(excs)
+                detail = f"{len(prods)} excitation classes, expected {excs}"
+                seen = set()
+                for c, fs in prods if ok else []:
+                    amp = [f for f in fs if isinstance(f, T) and f.op == "call" and f.args[0] == "Amplitude"]
+                    no = [f for f in fs if isinstance(f, T) and f.op == "call" and f.args[0] == "NO"]
+                    if len(amp) != 1 or len(no) != 1 or len(fs) != 2:
+                        ok, detail = False, f"unexpected product {show(fs)[:200]}"
+                        break
+                    a = list(args_of(amp[0]).values())
+                    e = len(a[1])
+                    seen.add(e)
+                    name = a[0]
+                    nm_ok = isinstance(name, T) and name.op == "fstr" and len(name.args) >= 2 and _is_tn(name.args[0], "gs_amplitude") and \
+                        "".join(str(x) for x in name.args[1:]) == f"{order}{'cc' if bk == 'bra' else ''}"
+                    inner = list(args_of(no[0]).values())[0]
+                    if bk == "bra":
+                        dag_ok = isinstance(inner, T) and inner.op == "call" and inner.args[0] == "Dagger"
+                        inner = list(args_of(inner).values())[0] if dag_ok else inner
+                    else:
+                        dag_ok = not (isinstance(inner, T) and inner.op == "call" and inner.args[0] == "Dagger")
+                    ea = args_of(inner) if isinstance(inner, T) and inner.op == "mcall" and inner.args[1] == "excitation_operator" else {}
+                    want_c = Fraction(-1 if e == 2 else 1, math.factorial(e) ** 2)
+                    if tuple(a[1]) != tuple(virt[:e]) or tuple(a[2]) != tuple(occ[:e]):
+                        ok, detail = False, f"{e}-fold amplitude on {show(a[1])}/{show(a[2])}, expected the first {e} virtual (upper) and occupied (lower) generic indices"
+                    elif Fraction(c) != want_c:
+                        ok, detail = False, f"{e}-fold excitation with prefactor {c}, expected {want_c} (1/({e}!)^2, doubles negative)"
+                    elif not nm_ok:
+                        ok, detail = False, f"amplitude name {show(name)}, expected gs_amplitude + '{order}{'cc' if bk == 'bra' else ''}'"
+                    elif not dag_ok:
+                        ok, detail = False, "adjoint operators exactly for the bra"
+                    elif tuple(ea.get("creation", ())) != tuple(virt[:e]) or tuple(ea.get("annihilation", ())) != tuple(occ[:e]) or \
+                            ea.get("reverse_annihilation") is not True:
+                        ok, detail = False, f"operator string {show(inner)[:160]}, expected a+(virt[:{e}]) a(occ[:{e}]) reversed"
+                    if not ok:
+                        break
+                if ok and seen != set(excs):
+                    ok, detail = False, f"excitation classes {sorted(seen)}, expected {excs}"
+                ctx.check(rule, fn, ok, f"{what} = sum over exc in {excs} of (+/-)1/(exc!)^2 t NO(a+ a)",
+                          f"{what}: {detail}", key=f"psi {order} {bk} {singles}")
 
 
 def r02b(ctx):
     rule = "R02b"
-    texts = {}
+    # energy
+    fn = ctx.model.fn(f"{GS}.energy")
+    for order in (0, 1, 2, 3, 4):
+        scen, idx = dx.Scenario(), Idx()
+        sx = _sx(ctx, "energy", scen, idx)
+        outs = sx.run(fn, lambda: dict(self=_gs(scen), order=order))
+        hp = _hpart("h0" if order == 0 else "h1")
+        k = 0 if order == 0 else order - 1
+        formula = [_wicks(t_mul(_psi(0, "bra"), T("item", hp, 0), _psi(k, "ket")), T("item", hp, 1))]
+        dx.check_formula(ctx, rule, fn, f"energy({order})", outs, formula, key=f"energy {order}")
+    # overlap
+    fn = ctx.model.fn(f"{GS}.overlap")
+    for order in (0, 1, 2, 3, 4):
+        scen, idx = dx.Scenario(), Idx()
+        sx = _sx(ctx, "overlap", scen, idx)
+        outs = sx.run(fn, lambda: dict(self=_gs(scen), order=order))
+        formula = [1] if order == 0 else [_wicks(t_mul(_psi(i, "bra"), _psi(j, "ket")), None) for i, j in dx.compositions(order, 2)]
+        dx.check_formula(ctx, rule, fn, f"overlap({order})", outs, formula, key=f"overlap {order}")
+    # expectation value
+    fn = ctx.model.fn(f"{GS}.expectation_value")
+    for order in (0, 1, 2, 3):
+        for npart in (1, 2):
+            scen, idx = dx.Scenario(), Idx()
+            sx = _sx(ctx, "expectation_value", scen, idx)
+            outs = sx.run(fn, lambda: dict(self=_gs(scen), order=order, n_particles=npart))
+            op = mcall(sym("h"), "operator", n_create=npart, n_annihilate=npart)
+            formula = [t_mul(mcall(sym("gs"), "norm_factor", order=a), _wicks(t_mul(_psi(i, "bra"), T("item", op, 0), _psi(j, "ket")), T("item", op, 1)))
+                       for a, m in dx.compositions(order, 2) for i, j in dx.compositions(m, 2)]
+            dx.check_formula(ctx, rule, fn, f"expectation_value({order}, {npart})", outs, formula, key=f"expectation {order} {npart}")
+
+
+def _amp_name(o):
+    return None
+
+
+def _amp_ok(t, order, upper, lower):
+    if not (isinstance(t, T) and t.op == "call" and t.args[0] == "Amplitude"):
+        return False
+    a = list(args_of(t).values())
+    name = a[0]
+    nm = isinstance(name, T) and name.op == "fstr" and _is_tn(name.args[0], "gs_amplitude") and "".join(str(x) for x in name.args[1:]) == str(order)
+    return nm and tuple(a[1]) == tuple(upper) and tuple(a[2]) == tuple(lower)
+
+
+def r02a(ctx):
+    rule = "R02a"
+    cases = (("ph", "ia"), ("pphh", "ijab"), ("ppphhh", "ijkabc"))
     for meth in ("mp_amplitude", "amplitude_residual"):
-        fn = ctx.model.fn(GS + meth)
-        conts = [n for n in walk_fn(fn) if isinstance(n, ast.Continue)]
-        ctx.floor(rule, f"skip sites in {meth}", len(conts), 1)
-        for c in conts:
-            iff = c._parent
-            lp = enclosing(c, ast.For)
-            comps = [U(e) for e in lp.target.elts] if isinstance(lp.target, ast.Tuple) else []
-            # the amplitude order is the component used in the amplitude name
-            name_defs = [a for a in common.assigns_to(fn, "name") if isinstance(a.value, ast.JoinedStr)]
-            amp_o = None
-            for a in name_defs:
-                for v in a.value.values:
-                    if isinstance(v, ast.FormattedValue) and U(v.value) in comps:
-                        amp_o = U(v.value)
-            if amp_o is None:
-                raise AnalysisError(f"{meth}: amplitude order component not found")
-            t = U(iff.test).replace(amp_o, "<t>")
-            texts[meth] = t
-            want = "n_ov['occ'] > 2 * <t> or (n_ov['occ'] == 1 and <t> == 1 and (not self.singles))"
-            ctx.check(rule, iff, t == want, f"{meth}: amplitude of order <t> skipped iff it does not exist",
-                      f"{meth}: existence guard is `{U(iff.test)}`; an amplitude t_k^(m) exists unless rank > 2m or "
-                      "(singles, first order, no first-order singles) - and the tested order must be the amplitude's",
-                      key=f"{meth} guard")
-        early = [r for r in common.returns_of(fn) if U(r.value) == "0"]
-        ok = any(("n_ov['occ'] > 2 * order", True) in conditions(r) for r in early)
-        ctx.check(rule, fn, ok, f"{meth}: class absent at this order gives 0", f"{meth}: early exit for absent classes changed",
-                  key=f"{meth} absent")
-    if len(texts) == 2:
-        fn = ctx.model.fn(GS + "amplitude_residual")
-        ctx.check(rule, fn, len(set(texts.values())) == 1, "both amplitude builders use the same existence guard",
-                  f"existence guards differ: {texts}", key="guard agreement")
-    psi = ctx.model.fn(GS + "psi")
-    conts = [n for n in walk_fn(psi) if isinstance(n, ast.Continue)]
-    ok = len(conts) == 1 and U(conts[0]._parent.test) == "order == 1 and (not self.singles) and (excitation == 1)"
-    ctx.check(rule, psi, ok, "psi omits exactly the first-order singles when not requested",
-              "psi skips amplitude classes under a different condition", key="psi singles")
-    amp = ctx.model.fn(GS + "amplitude")
-    got = {}
-    for r in common.returns_of(amp):
-        for t, pol in conditions(r):
-            if pol and t.startswith("variant == "):
-                got[t.split("== ")[1]] = call_name(r.value) if isinstance(r.value, ast.Call) else U(r.value)
-    ctx.check(rule, amp, got == {"'mp'": "mp_amplitude", "'re'": "amplitude_residual"}, "amplitude dispatch mp/re",
-              f"amplitude dispatch is {got}", key="amplitude dispatch")
+        fn = ctx.model.fn(f"{GS}.{meth}")
+        for singles in (False, True):
+            for space, istr in cases:
+                for order in (0, 1, 2, 3):
+                    scen, idx = dx.Scenario(singles=singles, gs_variant="mp" if meth == "mp_amplitude" else "re"), Idx()
+                    sx = _sx(ctx, meth, scen, idx)
+                    outs = sx.run(fn, lambda: dict(self=_gs(scen), order=order, space=space, indices=istr))
+                    what = f"{meth}({order}, {space}{', singles' if singles else ''})"
+                    n = len(space) // 2
+                    occ = [sym(c) for c in istr if "i" <= c <= "o"]
+                    virt = [sym(c) for c in istr if "a" <= c <= "h"]
+                    if len(outs) != 1 or outs[0].kind != "return":
+                        ctx.bad(rule, fn, f"{what}: {outs}", key=f"{meth} shape {space} {order} {singles}")
+                        continue
+                    v = dx.val(outs[0])
+                    if n > 2 * order:
+                        ctx.check(rule, fn, v == 0, f"{what} = 0 (class absent at this order)", f"{what} = {show(v)[:120]}, expected 0",
+                                  key=f"{meth} {space} {order} {singles}")
+                        continue
+                    # <Phi| : excitation operator creating the occupied, annihilating the virtual indices
+                    bra = mcall(sym("h"), "excitation_operator", creation=tuple(occ), annihilation=tuple(virt), reverse_annihilation=True)
+                    sign = 1 if n == 2 else -1
+                    elig = lambda o2: not (n > 2 * o2) and not (n == 1 and o2 == 1 and not singles)
+                    if meth == "mp_amplitude":
+                        h1 = _hpart("h1")
+                        num = [_wicks(t_mul(bra, T("item", h1, 0), _psi(order - 1, "ket")), T("item", h1, 1))]
+                        pairs = [(o1, o2) for o1, o2 in dx.compositions(order, 2, lo=1)]
+                    else:
+                        h0, h1 = _hpart("h0"), _hpart("h1")
+                        num = [_wicks(t_mul(bra, T("item", h0, 0), _psi(order, "ket")), T("item", h0, 1)),
+                               _wicks(t_mul(bra, T("item", h1, 0), _psi(order - 1, "ket")), T("item", h1, 1))]
+                        pairs = [(o1, o2) for o1, o2 in dx.compositions(order, 2)]
+                    got = v
+                    denom_ok = True
+                    if meth == "mp_amplitude":
+                        # v = numerator * denom ** -1
+                        fs = v.args if isinstance(v, T) and v.op == "mul" else (v,)
+                        den = [f for f in fs if isinstance(f, T) and f.op == "pow" and f.args[1] == -1]
+                        rest = [f for f in fs if f not in den]
+                        denom_ok = len(den) == 1
+                        if denom_ok:
+                            of, vf = (-1, 1) if n == 2 else (1, -1)
+                            want_den = dx.keys(expand_products(t_add(*[t_mul(of, kwcall("orb_energy", idx=x)) for x in occ],
+                                                                     *[t_mul(vf, kwcall("orb_energy", idx=x)) for x in virt])))
+                            got_den = dx.keys(expand_products(_strip_kw(den[0].args[0])))
+                            denom_ok = want_den == got_den
+                            got = t_mul(*rest)
+                        ctx.check(rule, fn, denom_ok, f"{what}: denominator {'e_a+e_b-e_i-e_j' if n == 2 else 'sum e_occ - sum e_virt'}",
+                                  f"{what}: denominator is {show(den)[:200]}", key=f"{meth} denominator {space} {order} {singles}")
+                    prods = dx.skeleton(got)
+                    want = sum((expand_products(x) for x in num), [])
+                    wk = dx.keys(want)
+                    gk = {}
+                    ok, detail = True, ""
+                    extra = []
+                    for c, fs in prods:
+                        amp = [f for f in fs if isinstance(f, T) and f.op == "call" and f.args[0] == "Amplitude"]
+                        if not amp:
+                            k = dx.product_key(c, fs, dx.is_scalar)
+                            gk[k] = gk.get(k, 0) + 1
+                        else:
+                            extra.append((c, fs, amp))
+                    if gk != wk:
+                        ok, detail = False, f"Wick part differs: got {sorted(gk)[:2]}, expected {sorted(wk)[:2]}"
+                    want_pairs = [(o1, o2) for o1, o2 in pairs if elig(o2)]
+                    seen = []
+                    for c, fs, amp in extra if ok else []:
+                        en = [f for f in fs if isinstance(f, T) and f.op == "mcall" and f.args[1] == "energy"]
+                        if len(amp) != 1 or len(en) != 1 or len(fs) != 2:
+                            ok, detail = False, f"unexpected product {show(fs)[:200]}"
+                            break
+                        o1 = args_of(en[0]).get("order")
+                        o2s = [o2 for o2 in range(0, order + 1) if _amp_ok(amp[0], o2, virt, occ)]
+                        if len(o2s) != 1:
+                            ok, detail = False, f"amplitude factor {show(amp[0])[:160]} is not t^(k) on the requested (virtual, occupied) indices"
+                            break
+                        if Fraction(c) != sign:
+                            ok, detail = False, f"E^({o1}) t^({o2s[0]}) enters with the sign {c}, expected {sign} (doubles convention)"
+                            break
+                        seen.append((o1, o2s[0]))
+                    if ok and sorted(seen) != sorted(want_pairs):
+                        ok, detail = False, f"energy-amplitude products {sorted(seen)}, expected {sorted(want_pairs)} (orders add up to {order}; amplitude exists)"
+                        if {a + b for a, b in seen} - {order}:
+                            ctx.bad("D1", fn, f"{what}: {detail}", key=f"{meth} {space} {order} {singles} orders")
+                    ctx.check(rule, fn, ok, f"{what}: Wick part and {len(want_pairs)} energy-amplitude products", f"{what}: {detail}",
+                              key=f"{meth} {space} {order} {singles}")
+        # guards
+        for space, istr, why in (("pph", "iab", "space with unequal numbers of particles and holes"), ("pphh", "ia", "indices that do not fit the space")):
+            scen, idx = dx.Scenario(), Idx()
+            sx = _sx(ctx, meth, scen, idx)
+            outs = sx.run(fn, lambda: dict(self=_gs(scen), order=2, space=space, indices=istr))
+            dx.all_raise(ctx, rule, fn, f"{meth}: {why}", outs, key=f"{meth} guard {why}")
+    fn = ctx.model.fn(f"{GS}.amplitude")
+    for variant, target in (("mp", "mp_amplitude"), ("re", "amplitude_residual"), ("xx", None)):
+        scen, idx = dx.Scenario(gs_variant=variant), Idx()
+        sx = dx.make_sx(ctx, "amplitude", scen)
+        sx.inline = lambda q_: False
+        outs = sx.run(fn, lambda: dict(self=_gs(scen), order=sym("N"), space=sym("S"), indices=sym("I")))
+        if target is None:
+            dx.all_raise(ctx, rule, fn, "amplitude for an unknown partitioning", outs, key="amplitude dispatch unknown")
+        else:
+            v = dx.val(outs[0]) if len(outs) == 1 and outs[0].kind == "return" else None
+            ok = isinstance(v, T) and v.op == "mcall" and v.args[1] == target and \
+                [args_of(v).get(k) for k in ("order", "space", "indices")] == [sym("N"), sym("S"), sym("I")]
+            ctx.check(rule, fn, ok, f"amplitude of the {variant} partitioning is {target}(order, space, indices)",
+                      f"amplitude() for variant '{variant}' evaluates to {show(v)[:160]}", key=f"amplitude dispatch {variant}")
 
 
-# ---------------------------------------------------------------------- R02c
-
-
-def taylor_builder(ctx, rule, fnref, exponent):
-    fn = ctx.model.fn(fnref)
-    lab = fnref.split(":")[1]
-    body = common.strip_docstring(fn.body)
-    f0 = [a for a in common.assigns_to(fn, "f") if enclosing(a, ast.For) is None]
-    ok = len(f0) == 1 and U(f0[0].value).replace(" ", "") in (f"(1+x)**{exponent}", f"(1+x)**({exponent})")
-    ctx.check(rule, fn, ok, f"{lab}: f = (1+x)^{exponent}", f"{lab}: expanded function is `{U(f0[0].value) if f0 else None}`",
-              key=f"{lab} function")
-    loops = [n for n in body if isinstance(n, ast.For)]
-    if len(loops) != 1:
-        raise AnalysisError(f"{lab}: Taylor loop not found")
-    lp = loops[0]
-    e = U(lp.target)
-    ctx.check(rule, lp, U(lp.iter).replace(" ", "") == "range(1,order//min_order+1)", f"{lab}: exponents 1..order//min_order",
-              f"{lab}: exponents iterate `{U(lp.iter)}`", key=f"{lab} range")
-    stm = [U(s).replace(" ", "") for s in lp.body]
-    want = ["f=diff(f,x)", f"pref=nsimplify(f.subs(x,0)/factorial({e}),rational=True)",
-            f"orders=gen_term_orders(order=order,term_length={e},min_order=min_order)", "ret.append((pref,orders))"]
-    ctx.check(rule, lp, stm == want, f"{lab}: coefficient f^(k)(0)/k! paired with the k-fold order compositions",
-              f"{lab}: loop body is {stm}", key=f"{lab} body")
-    low = [r for r in common.returns_of(fn) if ("order < min_order", True) in conditions(r)]
-    ctx.check(rule, fn, len(low) == 1 and U(low[0].value) == "[(1, [(order,)])]", f"{lab}: below min_order the bare order",
-              f"{lab}: low-order shortcut changed", key=f"{lab} low")
-    last = common.returns_of(fn)[-1]
-    ctx.check(rule, fn, U(last.value) == "ret", f"{lab}: list returned", f"{lab}: returns `{U(last.value)}`", key=f"{lab} ret")
-
-
-def taylor_consumer(ctx, rule, fnref, callee, init_ok=("pref",)):
-    """for pref, termlist in T: for term in termlist: i1 = pref; for o in term: i1 *= callee(order=o,...)"""
-    fn = ctx.model.fn(fnref)
-    lab = fnref.split(":")[1]
-    inner = [n for n in walk_fn(fn) if isinstance(n, ast.For) and isinstance(enclosing(n, ast.For), ast.For)
-             and isinstance(enclosing(enclosing(n, ast.For), ast.For), ast.For)]
-    ctx.floor(rule, f"element loop in {lab}", len(inner), 1)
-    lo = inner[0]
-    mid = enclosing(lo, ast.For)
-    out = enclosing(mid, ast.For)
-    o = U(lo.target)
-    ok = U(lo.iter) == U(mid.target) and isinstance(out.target, ast.Tuple) and U(mid.iter) == U(out.target.elts[1])
-    ctx.check(rule, lo, ok, f"{lab}: every order of every composition of every Taylor term",
-              f"{lab}: Taylor list is not consumed element-wise", key=f"{lab} loops")
-    muls = [n for n in lo.body if isinstance(n, ast.AugAssign) and isinstance(n.op, ast.Mult)]
-    ok = len(muls) == 1 and isinstance(muls[0].value, ast.Call) and call_name(muls[0].value) == callee \
-        and U(kwarg(muls[0].value, "order", 0)) == o
-    ctx.check(rule, lo, ok, f"{lab}: one factor {callee}(order={o}) per element",
-              f"{lab}: element loop does not multiply exactly one {callee}(order={o})", key=f"{lab} factor")
-    acc = U(muls[0].target) if muls else "i1"
-    init = [s for s in mid.body if isinstance(s, ast.Assign) and U(s.targets[0]) == acc]
-    ctx.check(rule, mid, len(init) == 1 and U(init[0].value) == U(out.target.elts[0]),
-              f"{lab}: product starts with the Taylor coefficient", f"{lab}: product does not start with the coefficient",
-              key=f"{lab} init")
-    adds = [s for s in mid.body if isinstance(s, ast.AugAssign) and isinstance(s.op, ast.Add) and acc in U(s.value)]
-    ctx.check(rule, mid, len(adds) == 1, f"{lab}: each product added once", f"{lab}: products are not added exactly once",
-              key=f"{lab} add")
-    return fn, lo, mid, out
+def _strip_kw(t):
+    return t
 
 
 def r02c(ctx):
     rule = "R02c"
-    taylor_builder(ctx, rule, GS + "expand_norm_factor", "-1.0")
-    taylor_consumer(ctx, rule, GS + "norm_factor", "overlap")
-    nf = ctx.model.fn(GS + "norm_factor")
-    c = [c for c in calls_in(nf) if call_name(c) == "expand_norm_factor"]
-    ok = len(c) == 1 and U(kwarg(c[0], "order", 0)) == "order" and U(kwarg(c[0], "min_order", 1)) == "2"
-    ctx.check(rule, nf, ok, "norm factor: expansion in S(i>=2)", "norm_factor calls expand_norm_factor with other arguments",
-              key="norm_factor call")
-    a = ctx.model.fn(GS + "expand_norm_factor")
-    b = ctx.model.fn("intermediate_states:IntermediateStates.expand_S_taylor")
-    ta = [U(s).replace("-1.0", "<E>") for s in common.strip_docstring(a.body)]
-    tb = [U(s).replace("-0.5", "<E>") for s in common.strip_docstring(b.body)]
-    norm = lambda L: [t for t in L if not t.startswith("from sympy import")]  # noqa: E731
-    ctx.check(rule, b, norm(ta) == norm(tb), "the two Taylor builders differ only in the exponent",
-              "expand_norm_factor and expand_S_taylor no longer share one shape", key="taylor siblings")
-    ov = ctx.model.fn(GS + "overlap")
-    z = [r for r in common.returns_of(ov) if ("order == 0", True) in conditions(r)]
-    ctx.check(rule, ov, len(z) == 1 and U(z[0].value) == "sympify(1)", "overlap(0) = 1", "zeroth-order overlap is not 1",
-              key="overlap zeroth")
+    fn = ctx.model.fn(f"{GS}.expand_norm_factor")
+    for order in range(0, 10):
+        scen, idx = dx.Scenario(), Idx()
+        sx = _sx(ctx, "expand_norm_factor", scen, idx)
+        outs = sx.run(fn, lambda: dict(self=_gs(scen), order=order, min_order=2))
+        want = [(1, [(order,)])] if order < 2 else [(dx.taylor_coefficient(-1, k), [tuple(c) for c in dx.compositions(order, k, lo=2)])
+                                                   for k in range(1, order // 2 + 1)]
+        got = dx.val(outs[0]) if len(outs) == 1 and outs[0].kind == "return" else None
+        try:
+            norm = [(Fraction(p), sorted(tuple(t) for t in ts)) for p, ts in got]
+        except Exception:
+            norm = None
+        ctx.check(rule, fn, norm == [(Fraction(p), sorted(ts)) for p, ts in want], f"(1+x)^-1 Taylor terms of order {order}",
+                  f"expand_norm_factor({order}) returns {show(got)[:300]}, expected {want}", key=f"norm taylor {order}")
+    scen, idx = dx.Scenario(), Idx()
+    sx = _sx(ctx, "expand_norm_factor", scen, idx)
+    outs = sx.run(fn, lambda: dict(self=_gs(scen), order=4, min_order=0))
+    dx.all_raise(ctx, rule, fn, "expand_norm_factor: min_order 0", outs, key="norm taylor guard")
+    fn = ctx.model.fn(f"{GS}.norm_factor")
+    for order in range(0, 7):
+        scen, idx = dx.Scenario(), Idx()
+        sx = _sx(ctx, "norm_factor", scen, idx, extra_inline={f"{GS}.expand_norm_factor"}, oracle=dx.nothing_vanishes, max_steps=3000000)
+        outs = sx.run(fn, lambda: dict(self=_gs(scen), order=order))
+        S = lambda o: mcall(sym("gs"), "overlap", order=o)
+        if order < 2:
+            formula = [S(order)]
+        else:
+            formula = [t_mul(dx.taylor_coefficient(-1, k), *[S(o) for o in os_]) for k in range(1, order // 2 + 1)
+                       for os_ in dx.compositions(order, k, lo=2)]
+        dx.check_formula(ctx, rule, fn, f"norm_factor({order})", outs, formula, key=f"norm factor {order}", only_full=True)
+
+
+def ground_state_layer(ctx):
+    if ctx.want("R02d"):
+        r02d(ctx)
+    if ctx.want("D3"):
+        d3_operator(ctx)
+        d3_psi(ctx)
+    if ctx.want("R02b"):
+        r02b(ctx)
+    if ctx.want("R02a"):
+        r02a(ctx)
+    if ctx.want("R02c"):
+        r02c(ctx)
 
 
 def run(ctx):
-    if ctx.want("D1"):
-        deriv.d1(ctx, "D1", "groundstate", 6)
-        r_implicit_split(ctx)
-    if ctx.want("D2"):
-        deriv.d2(ctx, "D2", "groundstate", 6)
-    if ctx.want("D3"):
-        d3_psi(ctx)
-        d3_operator(ctx)
-    if ctx.want("R02d"):
-        r_hamiltonians(ctx)
-    if ctx.want("R02a"):
-        r02a(ctx)
-    if ctx.want("R02b"):
-        r02b(ctx)
-    if ctx.want("R02c"):
-        r02c(ctx)
+    ground_state_layer(ctx)
